@@ -3,6 +3,7 @@ package main
 import (
 	"encoding/json"
 	"sync"
+	"sync/atomic"
 	"time"
 
 	"github.com/anthdm/hollywood/actor"
@@ -21,12 +22,19 @@ type deliverCase struct {
 	PerSender int    `json:"per_sender"`
 	Total     int    `json:"total"`
 	ViaActor  bool   `json:"via_actor"` // multi: the senders are actors forwarding a numbered stream
+	// multi: the receiver panics on these (sender, seq) messages; the actor restarts after
+	// RestartDelayMs while the senders keep sending; each handler call takes HandlerMicros
+	PanicAt        [][]int `json:"panic_at"`
+	RestartDelayMs int     `json:"restart_delay_ms"`
+	HandlerMicros  int     `json:"handler_micros"`
+	PaceMicros     int     `json:"pace_micros"`
 }
 
 type deliverObs struct {
 	// multi: per received message (sender index, sequence number, sender PID matched the one given)
-	Got  [][]int `json:"got"`
-	Hang bool    `json:"hang"`
+	Got     [][]int `json:"got"`
+	Hang    bool    `json:"hang"`
+	Overlap bool    `json:"overlap"` // two Receive calls of the actor were in progress at once
 }
 
 type dmsg struct{ From, Seq int }
@@ -57,10 +65,26 @@ func runDeliver(raw json.RawMessage) (any, error) {
 	if size < 1 {
 		size = 1
 	}
+	var inflight int32
+	overlap := false
+	panicked := map[[2]int]bool{}
+	opts := []actor.OptFunc{actor.WithID("x"), actor.WithInboxSize(size)}
+	if len(c.PanicAt) > 0 {
+		opts = append(opts, actor.WithMaxRestarts(len(c.PanicAt)+1), actor.WithRestartDelay(time.Duration(c.RestartDelayMs)*time.Millisecond))
+	}
 	pid := e.SpawnFunc(func(ctx *actor.Context) {
+		if n := atomic.AddInt32(&inflight, 1); n > 1 {
+			mu.Lock()
+			overlap = true
+			mu.Unlock()
+		}
+		defer atomic.AddInt32(&inflight, -1)
 		m, ok := ctx.Message().(dmsg)
 		if !ok {
 			return
+		}
+		if c.HandlerMicros > 0 {
+			time.Sleep(time.Duration(c.HandlerMicros) * time.Microsecond)
 		}
 		match := 1
 		if c.Mode == "multi" && !c.ViaActor {
@@ -80,7 +104,18 @@ func runDeliver(raw json.RawMessage) (any, error) {
 		if n == want {
 			close(done)
 		}
-	}, "sink", actor.WithID("x"), actor.WithInboxSize(size))
+		for _, pa := range c.PanicAt {
+			if pa[0] == m.From && pa[1] == m.Seq {
+				mu.Lock()
+				first := !panicked[[2]int{m.From, m.Seq}]
+				panicked[[2]int{m.From, m.Seq}] = true
+				mu.Unlock()
+				if first {
+					panic("scripted panic")
+				}
+			}
+		}
+	}, "sink", opts...)
 	switch c.Mode {
 	case "chain":
 		e.Send(pid, dmsg{0, 1})
@@ -106,6 +141,9 @@ func runDeliver(raw json.RawMessage) (any, error) {
 					defer wg.Done()
 					for k := 1; k <= c.PerSender; k++ {
 						e.SendWithSender(pid, dmsg{s, k}, senderPIDs[s])
+						if c.PaceMicros > 0 {
+							time.Sleep(time.Duration(c.PaceMicros) * time.Microsecond)
+						}
 					}
 				}()
 			}
@@ -116,10 +154,11 @@ func runDeliver(raw json.RawMessage) (any, error) {
 	select {
 	case <-done:
 		time.Sleep(20 * time.Millisecond) // would a duplicate still arrive?
-	case <-time.After(5 * time.Second):
+	case <-time.After(8 * time.Second):
 		obs.Hang = true
 	}
 	mu.Lock()
+	obs.Overlap = overlap
 	obs.Got = append([][]int{}, got...)
 	mu.Unlock()
 	return obs, nil
